@@ -2,7 +2,7 @@
   C15 — LRU and size-bounded LRU caches refine the reference LRU, flags and handlers too.
 -/
 import SV.LRU.Proofs
-import SV.GenProofs
+import SV.GenProofs.LRU
 namespace SV.Props.C15
 open SV SV.LRU
 
